@@ -92,7 +92,7 @@ func newOCIBlobDigest() *ociBlob {
 
 // MarshalBinary encodes ob into binary format.
 func (ob *ociBlob) MarshalBinary() ([]byte, error) {
-	if ob.digest.Hex == "" {
+	if ob.digest.Hex == "" && ob.hasher != nil {
 		ob.digest.Hex = hex.EncodeToString(ob.hasher.Sum(nil))
 	}
 
